@@ -15,3 +15,18 @@ def keyed(k: str, v: str = "d", w: str = "e") -> str:
 
 def noop() -> None:
     return None
+
+
+# ---- C18 probes -------------------------------------------------------------------------------
+WF_LOG: list = []
+
+
+def wf_probe(tag: str, n: int = 2) -> list:
+    """Body issuing n deterministic random numbers through the task's own workflow helper."""
+    from pynenc import context
+
+    app = context.get_current_app()
+    t = app.get_task(__import__("pynenc.identifiers.task_id", fromlist=["TaskId"]).TaskId(__name__, "wf_probe"))
+    vals = [t.wf.random() for _ in range(n)]
+    WF_LOG.append((tag, t.invocation.workflow.workflow_id, vals))
+    return vals
